@@ -552,6 +552,32 @@ def queue_mass_remove(H, buf, n_tasks, keep, seed):
                         'drain after mass removal differs at pop %d: %r, required %r' % (bad, got[bad:bad + 4], want[bad:bad + 4]), snip)
 
 
+def queue_failed_add(H, buf):
+    """an add() whose priority cannot be converted raises - and must leave the queue as it was: a task that was neither
+    removed nor popped is still there, with its old priority and arrival position"""
+    class Bad(object):
+        def __float__(self):
+            raise ValueError('not a priority')
+    for bad in ('not a number', Bad(), [1]):
+        for cls in CLASSES:
+            for target in ('b', 'new'):
+                q = cls()
+                for t, p in (('a', 1), ('b', 5), ('c', 3)):
+                    q.add(t, p)
+                wit = dict(cls=cls.__name__, history="add a:1, b:5, c:3; add(%r, %s) raises" % (target, type(bad).__name__))
+                H.ev(key=('failed-add', cls.__name__, type(bad).__name__, target), nontrivial=True, part='queue_failed_add', sample=wit)
+                raised = outcome((q, 'add'), (target, bad))
+                if raised[0] == 'ret':
+                    continue                      # this priority is accepted by the implementation: nothing to compare
+                got = (outcome(len, (q,)), [outcome((q, 'pop')) for _ in range(3)], outcome((q, 'pop'), ('empty',)))
+                want = (('ret', 3), [('ret', 'b'), ('ret', 'c'), ('ret', 'a')], ('ret', 'empty'))
+                if got != want:
+                    buf.add('never_returns_removed_len_is_live', '%s.add' % cls.__name__, {'readd'} if target == 'b' else set(), wit,
+                            'after the failed add: len, pops, pop(default) = %r, required %r' % (got, want),
+                            HDR + 'q = %s()\nfor t, p in (("a", 1), ("b", 5), ("c", 3)): q.add(t, p)\ntry: q.add("b", "not a number")\n'
+                            'except Exception: pass\nassert len(q) == 3 and [q.pop() for _ in range(3)] == ["b", "c", "a"]\n' % cls.__name__)
+
+
 def run():
     H = Harness('C10',
                 rule='a case is one (size factor, history) on both queue classes, judged at its last call and then '
@@ -583,6 +609,7 @@ def run():
         for live_n in (8, 40, 200):
             queue_churn(H, buf, live_n, 2500, H.seed)
         queue_mass_remove(H, buf, 4000, 600, H.seed)
+        queue_failed_add(H, buf)
         if H.thorough:
             queue_mass_remove(H, buf, 9000, 300, H.seed + 3)
         if H.thorough:
